@@ -4,6 +4,7 @@
 CONSTANTS
   Tier = "q"
   Unguarded = {"RootNil", "IssuerNil"}
+  EveryRoleTrusted = FALSE
 INIT Init
 NEXT Next
 INVARIANTS
